@@ -448,7 +448,7 @@ func genVerifyCase(t *rapid.T) VerifyCase {
 
 var specC12Verify = Register(&Spec[VerifyCase]{
 	Prop: "C12", Name: "verify",
-	Rule: "(content, recorded hash) pairs; the entry comes from a Checksums-Sha256 / Checksums-Sha512 field parsed into []SHA256FileHash / []SHA512FileHash, from control.BestChecksums with only the 256 field, only the 512 field or both present (via Checksums()), or from FileHashFromHasher over any of the four hashers (md5, sha1, sha256, sha512); the recorded hash is the true digest, the digest of other content, one flipped nibble, truncated (even / odd length; also cut by the zero byte a digest happens to end in), extended by zero or other bytes, the other algorithm's digest of the same content, or upper-case hex; the entry's Size column equals the stream length or is off by -1, +1, -5, +100 or far less, and in some cases the stream is the recorded content followed by 1..4096 further bytes. Oracle (the digest decides, not the size column; parsing the line into a variable that held other entries gives the same entry, a rejected line leaves the variable empty; once Verifier() has returned, the entry variable is overwritten with another entry - the verdict is about the entry the verifier was made from): the entry's Algorithm is that of the field it came from; writing the content in chunks and Close() returns nil iff digest_{entry algorithm}(content) == recorded hash (a malformed hex string may already be rejected by Verifier()). An entry built from an md5 or sha1 hasher is an entry built from a hasher like any other (Verifier() used to end the process with log.Fatalf for it - F52); md5/sha1 entries parsed from Files / Checksums-Sha1 fields are not named by the statement and not generated. Non-trivial: hash wrong in exactly one nibble, right under the wrong algorithm, or true with content in >= 2 chunks; distinct by case.",
+	Rule: "(content, recorded hash) pairs; the entry comes from a Checksums-Sha256 / Checksums-Sha512 field parsed into []SHA256FileHash / []SHA512FileHash, from control.BestChecksums with only the 256 field, only the 512 field or both present (via Checksums()), or from FileHashFromHasher over any of the four hashers (md5, sha1, sha256, sha512); the recorded hash is the true digest, the digest of other content, one flipped nibble, truncated (even / odd length; also cut by the zero byte a digest happens to end in), extended by zero or other bytes, the other algorithm's digest of the same content, or upper-case hex; the entry's Size column equals the stream length or is off by -1, +1, -5, +100 or far less, and in some cases the stream is the recorded content followed by 1..4096 further bytes. Oracle (the digest decides, not the size column; parsing the line into a variable that held other entries gives the same entry, a copy of the decoded struct kept by the caller still shows its own paragraph's entry after the next paragraph has been decoded into the same variable, a rejected line leaves the variable empty; once Verifier() has returned, the entry variable is overwritten with another entry - the verdict is about the entry the verifier was made from): the entry's Algorithm is that of the field it came from; writing the content in chunks and Close() returns nil iff digest_{entry algorithm}(content) == recorded hash (a malformed hex string may already be rejected by Verifier()). An entry built from an md5 or sha1 hasher is an entry built from a hasher like any other (Verifier() used to end the process with log.Fatalf for it - F52); md5/sha1 entries parsed from Files / Checksums-Sha1 fields are not named by the statement and not generated. Non-trivial: hash wrong in exactly one nibble, right under the wrong algorithm, or true with content in >= 2 chunks; distinct by case.",
 	Check: func(c VerifyCase, r *Recorder) error {
 		algo := "sha256"
 		switch c.Source {
@@ -531,6 +531,16 @@ var specC12Verify = Register(&Spec[VerifyCase]{
 				return errf("cannot parse Checksums-Sha256 %q: %v", line, err)
 			}
 			fh = s.Sums[0].FileHash
+			// the caller keeps what it read (a copy of the struct, as in `all = append(all, cur)`) and
+			// decodes the next paragraph into the same variable: the kept entry is still the entry of
+			// its own paragraph
+			kept := s
+			if err := control.Unmarshal(&s, strings.NewReader("Checksums-Sha256:\n "+trueDigest("sha256", []byte("the next paragraph"))+" 18 next.tar.gz\n")); err != nil || len(s.Sums) != 1 || s.Sums[0].Filename != "next.tar.gz" {
+				return errf("a second paragraph decoded into the same variable gives %+v (err %v)", s.Sums, err)
+			}
+			if len(kept.Sums) != 1 || kept.Sums[0].FileHash != fh {
+				return errf("the entry read from the paragraph %q was %+v; after the next paragraph was decoded into the same variable the caller's copy of the struct shows %+v", line, fh, kept.Sums)
+			}
 			// the same line through the entry's own method, into a variable that held another entry
 			// (and a two-column one) before: nothing of those may survive; a rejected line leaves nothing
 			used := control.SHA256FileHash{}
@@ -557,6 +567,13 @@ var specC12Verify = Register(&Spec[VerifyCase]{
 				return errf("cannot parse Checksums-Sha512 %q: %v", line, err)
 			}
 			fh = s.Sums[0].FileHash
+			kept := s
+			if err := control.Unmarshal(&s, strings.NewReader("Checksums-Sha512:\n "+trueDigest("sha512", []byte("the next paragraph"))+" 18 next.tar.gz\n")); err != nil || len(s.Sums) != 1 || s.Sums[0].Filename != "next.tar.gz" {
+				return errf("a second paragraph decoded into the same variable gives %+v (err %v)", s.Sums, err)
+			}
+			if len(kept.Sums) != 1 || kept.Sums[0].FileHash != fh {
+				return errf("the entry read from the paragraph %q was %+v; after the next paragraph was decoded into the same variable the caller's copy of the struct shows %+v", line, fh, kept.Sums)
+			}
 		case "best256", "best512", "bestboth":
 			doc := ""
 			if c.Source == "best256" {
@@ -580,9 +597,19 @@ var specC12Verify = Register(&Spec[VerifyCase]{
 			// the new entries, not what it worked out the first time
 			otherHash := trueDigest(map[bool]string{true: "sha512", false: "sha256"}[c.Source == "best512"], []byte("another document"))
 			doc2 := map[bool]string{true: "Checksums-Sha512:\n", false: "Checksums-Sha256:\n"}[c.Source == "best512"] + fmt.Sprintf(" %s 16 other.tar.gz\n", otherHash)
+			keptBest := b
 			if err := control.Unmarshal(&b, strings.NewReader(doc2)); err == nil {
 				if cs2 := b.Checksums(); len(cs2) != 1 || cs2[0].Hash != otherHash || cs2[0].Filename != "other.tar.gz" {
 					return errf("after decoding a second document into the same BestChecksums, Checksums() = %+v, want the new entry %s other.tar.gz", cs2, otherHash)
+				}
+				// what the caller took away before (the list, a copy of the struct) is still the first document's
+				if cs[0] != fh {
+					return errf("the list Checksums() returned for %q shows %+v after another document was decoded into the same variable, it was %+v", doc, cs[0], fh)
+				}
+				if c.Source != "bestboth" {
+					if kc := keptBest.Checksums(); len(kc) != 1 || kc[0] != fh {
+						return errf("a copy of the BestChecksums read from %q answers Checksums() = %+v after another document was decoded into the original variable, it was %+v", doc, kc, fh)
+					}
 				}
 			}
 			// ... and as one element of a list: an index of several paragraphs, the one in front of
